@@ -53,7 +53,10 @@ LINES = [
     ("lit_close_s_doc", "   &cd' !! d{n}"),
     ("lit_close_s_stmt", "&c!d' ; u{n} = 1"),
     ("lit_mid_s", "  &e!f;g &"),
+    ("lit_close_s_dq_bang", "   &c''d!e' !! d{n}"),
+    ("lit_mid_s_dq", "  &e''f!!g &"),
     ("lit_open_d", "s{n} = \"a'b&"),
+    ("lit_close_d_dq_bang", "   &c\"\"d!!e\" ! c{n}"),
     ("lit_close_d_doc", "   &c''d\" !! d{n}"),
     ("cpp", "#define X{n} 'a"),
     ("bang_in_lit_amp", "y{n} = h('!', \"!!\", &"),
@@ -298,7 +301,7 @@ def token_shard(args):
 
 # ---- space 3: literal masking in the parser (tree level) -----------------------
 LITS = ["'a'", "'long string here'", "''", "'it''s, here'", '"say ""hi"" = now"', '"x, y = 3"', "'q(1) = f(2)'",
-        "'!not;comment&'", '""', "'real :: z'", "'end module m'", "\"contains\"", "'call sub(1)'"]
+        "'!not;comment&'", '""', "'real :: z'", "'end module m'", "\"contains\"", "'call sub(1)'", "'Mixed CASE Text; CALL Sub(X)'"]
 
 
 def literal_shard(args):
@@ -318,31 +321,32 @@ def literal_shard(args):
         src = ("module m\n  implicit none\n  " + decl + "\ncontains\n  subroutine p()\n    print *, " + ", ".join(lits) +
                "\n    call q(" + ", ".join(lits) + ")\n  end subroutine p\n  subroutine q(a, b, c)\n    character(*) :: a, b\n"
                "    character(*), optional :: c\n  end subroutine q\nend module m\n")
-        r = fordrun.build_fast({"src/m.f90": src}, dict(display=["public", "private", "protected"], proc_internals=True))
-        st.evaluations += 1
-        st.transitions += 1
-        site = "literal-masking"
-        inp = {"lines": src.split("\n"), "shape": "literals:" + "|".join(lits)}
-        feats = {"features": "literals", "complete": True}
-        st.nontrivial.add(core.digest(lits))
-        if r.error is not None or not r.project or not r.project.modules or "ERROR in file" in r.log or "Error parsing" in r.log:
-            st.violation("exception-on-wellformed-input", site, feats, inp, repr(r.error) + r.log[-200:], "parses")
-            st.stratum(site, 1)
-            continue
-        m = r.project.modules[0]
-        got = {v.name: (canon.nb(v.initial) or "<none>").replace("\\\\", "\\") for v in m.variables}
-        want = {n: canon.nb(l) for n, l in zip(names, lits)}
-        p = [x for x in m.subroutines if x.name == "p"]
-        calls = sorted((getattr(c, "name", c) or "").lower() for c in p[0].calls) if p else None
-        procs = sorted(x.name for x in list(m.subroutines) + list(m.functions))
-        obs = dict(initials=got, calls=calls, procs=procs, types=[t.name for t in m.types])
-        exp = dict(initials=want, calls=["q"], procs=["p", "q"], types=[])
-        st.states.add(core.digest(obs))
-        if obs != exp:
-            st.violation("literal-text-interpreted-or-altered", site, feats, inp, obs, exp)
-            st.stratum(site, 1)
-        else:
-            st.stratum(site, 0)
+        for lower in (False, True):  # the `lower` option lower-cases code, never the text of character literals
+            r = fordrun.build_fast({"src/m.f90": src}, dict(display=["public", "private", "protected"], proc_internals=True, lower=lower))
+            st.evaluations += 1
+            st.transitions += 1
+            site = "literal-masking" + ("/lower" if lower else "")
+            inp = {"lines": src.split("\n"), "shape": "literals:" + "|".join(lits), "lower": lower}
+            feats = {"features": "literals", "complete": True, "lower": lower}
+            st.nontrivial.add(core.digest([lits, lower]))
+            if r.error is not None or not r.project or not r.project.modules or "ERROR in file" in r.log or "Error parsing" in r.log:
+                st.violation("exception-on-wellformed-input", site, feats, inp, repr(r.error) + r.log[-200:], "parses")
+                st.stratum(site, 1)
+                continue
+            m = r.project.modules[0]
+            got = {v.name: (canon.nb(v.initial) or "<none>").replace("\\\\", "\\") for v in m.variables}
+            want = {n: canon.nb(l) for n, l in zip(names, lits)}
+            p = [x for x in m.subroutines if x.name == "p"]
+            calls = sorted((getattr(c, "name", c) or "").lower() for c in p[0].calls) if p else None
+            procs = sorted(x.name for x in list(m.subroutines) + list(m.functions))
+            obs = dict(initials=got, calls=calls, procs=procs, types=[t.name for t in m.types])
+            exp = dict(initials=want, calls=["q"], procs=["p", "q"], types=[])
+            st.states.add(core.digest(obs))
+            if obs != exp:
+                st.violation("literal-text-interpreted-or-altered", site, feats, inp, obs, exp)
+                st.stratum(site, 1)
+            else:
+                st.stratum(site, 0)
     return st
 
 
